@@ -15,6 +15,7 @@ var props = map[string]propCfg{
 	"C17": {Assumptions: []string{"ref.Equal transcribes the doc comment of capnp.Equal; pairs the comment does not decide are excluded from the iff assertion"}},
 	"C18": {Assumptions: []string{"ref.CheckCanonical transcribes the canonicalisation rules of capnproto.org/encoding.html (calibrated on the expected outputs of the repository's TestCanonicalize); 'equal as values' = same tree up to trailing zero words / null pointers"}},
 	"C14": {Assumptions: []string{"allocation is measured with runtime/metrics /gc/heap/allocs:bytes around a single call on an otherwise idle process, with 64 KiB slack", "ref.Unframe / ref.Unpack are the independent parsers"}},
+	"C19": {Assumptions: []string{"mirror types in harness/mirror follow the documented mapping rules (pogs/doc.go)", "schemas: aircraftlib only", "field bit ranges are read from the registered schema nodes"}},
 	"C20": {Assumptions: []string{"ref.ParseText implements the Cap'n Proto text value grammar as emitted for structs (strict about string literals)", "schemas: aircraftlib only", "the expected field values are read through the generated accessors"}},
 	"C16": {Assumptions: []string{"the version rule (top-level struct truncated / zero-extended, nested objects intact) is the one documented at Struct.CopyFrom; independence is asserted for operations documented or implemented as copies (cross-message assignment, list members, SetStruct, CopyFrom)"}},
 	"C13": {Assumptions: []string{"ref.Pack/ref.Unpack (written from the packing spec, self-tested against the repository's TestPack vectors) are correct"}},
